@@ -229,14 +229,14 @@ _add5("C06", "A (check state, recipient) pair does not stay on record when the c
 _add5("C07", "Names reach the case-sensitive public suffix list lower-cased (R7b); whether a From field was seen is a flag, not the collected value (R10); merged authentication results only grow (R11); the From field is parsed as transmitted, not after RFC 2047 decoding (R12).")
 _add5("C10", "Every store into message metadata inside the queue targets a DeepCopy result (R8); Body keeps a copy of the header, not the caller's value (R3f).")
 _add5("C11", "The destination permit is released under the string it was taken under: the domain parameter reaches mxConn.domain unassigned (R10).")
-_add5("C12", "Loading a message for a retry removes spool files only on the not-exist edge (C02.R9 as R13).")
+_add5("C12", "Loading a message for a retry removes spool files only on the not-exist edge (C02.R9 as R13); a recipient's attempt counter is deleted on every path on which the recipient leaves the pending list (R14).")
 _add5("C13", "A truncated DNS reply is never handed on as the answer (R5e); the resolver returns the whole TLSA RRset (R5f); the unauthenticated TLS retry keeps the configuration with its ServerName (R8).")
 _add5("C14", "Every provider that decides by asking further providers reports success only as a provider's nil answer – auth.plain_separate included (R3b); a package-local user-name normaliser applies the PRECIS profile on every path (R1); the update statement gets the insert statement's argument list (R3g).")
 _add5("C15", "table.file's reload stamp is a modification time (R12); framework/address has no unproven index or slice operation – a panicking check goroutine would count as passed (C17.R9 as R13).")
 _add5("C16", "Errors built in the limits packages keep the wrapped error in their chain (%w) (R4b); the report's Status line is printed from the stored status unmodified (R7); a named boolean or a delegation to SMTPCode with the class digits is understood in the helpers (R2).")
 _add5("C17", "The ASCII letters of a domain are lowered only after NFC normalisation (R4c); the compiler's remaining bounds checks in framework/address are discharged by dominating guards (R9).")
 _add5("C19", "On the failed-QUIT edge smtpconn.C.Close closes the socket itself (R11); a connection's lastUseAt is stamped when its own transaction ends, not after the join of all connections (R12).")
-_add5("C20", "Macro expansion is bounded: after a replacement list is spliced in, the list's length is compared with a bound (R3c); the import budget is shared by reference with imported files (R3b); numLineBreaks counts exactly the lexer's line feed (R6c).")
+_add5("C20", "Macro expansion is bounded: after a replacement list is spliced in, the list's length is compared with a bound (R3c); the import budget is shared by reference with imported files (R3b); numLineBreaks counts exactly the lexer's line feed (R6c); environment placeholders are substituted after the last import was expanded, so snippet bodies are covered (R4b).")
 for _id in list(CLAIMED):
     tech, text, note, ref = CLAIMED[_id]
-    CLAIMED[_id] = (tech, text, note + "; rules are form-agnostic (named booleans, if/switch, loop forms, extracted helpers, renamed unexported functions and fields – DESIGN.md §R.7) and measured against a corpus of 35 behaviour-preserving refactorings (functions the reference tree did not have are read as part of their callers – §R.10) (refactorings/, refacall.sh)", ref)
+    CLAIMED[_id] = (tech, text, note + "; rules are form-agnostic (named booleans, if/switch, loop forms, extracted helpers, renamed unexported functions and fields – DESIGN.md §R.7) and measured against a corpus of 61 behaviour-preserving refactorings (functions the reference tree did not have are read as part of their callers – §R.10) (refactorings/, refacallw.sh)", ref)
